@@ -1,6 +1,8 @@
 import QipVerif.Lemmas.EmbedList
 import QipVerif.Lemmas.EmbedCount
 import QipVerif.Lemmas.EmbedAlg
+import QipVerif.Lemmas.EmbedFlatTop
+import QipVerif.Lemmas.EmbedArgs
 /-!
 # C08 — operator embedding places an operator on exactly the requested subsystems
 
@@ -46,43 +48,142 @@ example : [3, 0].Nodup ∧ (∀ t ∈ [3, 0], t < 5) ∧
 
 /-- `new_order` is a permutation of `0..N-1`. -/
 theorem newOrder_perm (N : Nat) (targets : List Nat) (hn : targets.Nodup) (hr : ∀ t ∈ targets, t < N) :
-    (newOrder N targets).Perm (List.range N) := by
-  have hlen := newOrder_length N targets
-  have hil := invOrder_length N targets hn hr
-  have : newOrder N targets = (List.range N).map (fun p => (invOrder N targets).idxOf p) := by
-    apply List.ext_getElem?
-    intro p
-    by_cases hp : p < N
-    · rw [newOrder_get' N targets hn p hp]; simp [hp]
-    · rw [List.getElem?_eq_none (by omega), List.getElem?_eq_none (by simp; omega)]
-  rw [this]
-  have hnd : ((List.range N).map (fun p => (invOrder N targets).idxOf p)).Nodup := by
-    rw [List.nodup_map_iff_inj_on List.nodup_range]
-    intro a ha b hb hab
-    have ha' := (mem_invOrder hr).mpr (List.mem_range.mp ha)
-    have hb' := (mem_invOrder hr).mpr (List.mem_range.mp hb)
-    have e1 : (invOrder N targets)[(invOrder N targets).idxOf a]'(List.idxOf_lt_length_of_mem ha') = a :=
-      List.getElem_idxOf _
-    have e2 : (invOrder N targets)[(invOrder N targets).idxOf b]'(List.idxOf_lt_length_of_mem hb') = b :=
-      List.getElem_idxOf _
-    simp only [hab] at e1
-    exact e1.symm.trans e2
-  refine (List.perm_ext_iff_of_nodup hnd List.nodup_range).mpr (fun v => ?_)
-  rw [List.mem_map, List.mem_range]
-  constructor
-  · rintro ⟨p, hp, rfl⟩
-    have := List.idxOf_lt_length_of_mem ((mem_invOrder hr).mpr (List.mem_range.mp hp))
-    omega
-  · intro hv
-    have hvl : v < (invOrder N targets).length := by omega
-    refine ⟨(invOrder N targets)[v], ?_, (invOrder_nodup N targets hn).idxOf_getElem v hvl⟩
-    exact List.mem_range.mpr ((mem_invOrder hr).mp (List.getElem_mem hvl))
+    (newOrder N targets).Perm (List.range N) := EmbedFlat.newOrder_perm N targets hn hr
+
+example : newOrder 5 [3, 0] = [1, 2, 3, 0, 4] := by decide
 
 /-- `new_order[targets[i]] = i`: the i-th listed target becomes subsystem `i` of the operator. -/
 theorem newOrder_targets (N : Nat) (targets : List Nat) (hn : targets.Nodup) (hr : ∀ t ∈ targets, t < N)
     (i : Nat) (hi : i < targets.length) : (newOrder N targets)[targets[i]]? = some i := by
   rw [newOrder_get N targets hn _ (hr _ (List.getElem_mem hi))]
   simp [hn.idxOf_getElem i hi]
+
+
+/-! ### The flat-index model: what QuTiP computes on the stored matrices
+
+`EmbedFlat.flatEntry dims targets X Y` is the stored entry at flat row `X`, flat column `Y` of
+`tensor([oper] + id_list).permute(new_order)` as computed by `qutip.core.tensor.tensor` (iterated `kron`,
+`kron(A,B)[i,j] = A[i / n, j / n] * B[i % n, j % n]`) and `qutip/core/data/permute.pyx` (`_Indexer`: the
+`cumprod` loop, `single`, `all`, placement by `argsort` / scatter).  No meaning of "subsystem" is assumed:
+the theorems below derive it. -/
+
+open QipVerif.EmbedFlat in
+/-- **Meaning of `Qobj.permute`, proved from QuTiP's index arithmetic**: for every tensor structure with
+positive dimensions and every `order` that is a permutation of the positions, the flat index `idx` of the
+argument is sent to the flat index (radix `[structure[o] for o in order]`) whose digit `p` is digit
+`order[p]` of `idx`. -/
+theorem permute_digits (dimsA order : List Nat) (hperm : order.Perm (List.range dimsA.length))
+    (hpos : ∀ d ∈ dimsA, 0 < d) (idx : Nat) :
+    single dimsA (cumprod order (ndOf dimsA order)) idx < prodL (ndOf dimsA order) ∧
+    digits (ndOf dimsA order) (single dimsA (cumprod order (ndOf dimsA order)) idx)
+      = order.map (fun o => (digits dimsA idx).getD o 0) :=
+  EmbedFlat.permute_digits hperm hpos idx
+
+example : [2, 0, 1].Perm (List.range [2, 3, 4].length) ∧ (∀ d ∈ [2, 3, 4], 0 < d) ∧
+    EmbedFlat.ndOf [2, 3, 4] [2, 0, 1] = [4, 2, 3] ∧
+    -- idx = 17 = (1,1,1) in radix (2,3,4) goes to (1,1,1) in radix (4,2,3) = 10
+    EmbedFlat.single [2, 3, 4] (EmbedFlat.cumprod [2, 0, 1] [4, 2, 3]) 17 = 10 := by decide
+
+open QipVerif.EmbedFlat in
+/-- the placement read forwards, as `_indices_csr_full` writes it: the entry at `(n, m)` of the argument
+is the entry at `(index.all()[n], index.all()[m])` of the result -/
+theorem permute_scatter (dimsA order : List Nat) (hperm : order.Perm (List.range dimsA.length))
+    (hpos : ∀ d ∈ dimsA, 0 < d) (inp : Nat → Nat → Entry) (n m : Nat)
+    (hn : n < prodL dimsA) (hm : m < prodL dimsA) :
+    permuteEntries (indexAll dimsA order (ndOf dimsA order)) inp
+      (single dimsA (cumprod order (ndOf dimsA order)) n)
+      (single dimsA (cumprod order (ndOf dimsA order)) m) = inp n m :=
+  EmbedFlat.permuteEntries_scatter hperm hpos inp n m hn hm
+
+open QipVerif.EmbedFlat in
+/-- **Meaning of `tensor([oper] + identities)`, proved from the `kron` index formula**: the entry at the
+flat indices with digit lists `a ++ r`, `b ++ s` is the operator's entry at `(a, b)` if `r = s`, else 0. -/
+theorem tensor_digits (od a b : List Nat) (hla : a.length = od.length) (hlb : b.length = od.length)
+    (rest r s : List Nat) (hr : ValidDigits rest r) (hs : ValidDigits rest s) :
+    tensorIds operEntry rest (undigits (od ++ rest) (a ++ r)) (undigits (od ++ rest) (b ++ s)) =
+      if r = s then some (undigits od a, undigits od b) else none :=
+  EmbedFlat.tensorIds_undigits operEntry od a b hla hlb rest r s hr hs
+
+example : EmbedFlat.ValidDigits [3, 2] [2, 1] ∧
+    EmbedFlat.tensorIds EmbedFlat.operEntry [3, 2] (undigits [2, 3, 2] [1, 2, 1]) (undigits [2, 3, 2] [0, 2, 1])
+      = some (1, 0) := by
+  refine ⟨⟨rfl, ?_⟩, by decide⟩
+  intro i h1 h2
+  match i, h1, h2 with
+  | 0, _, _ => simp
+  | 1, _, _ => simp
+  | i + 2, h1, _ => simp at h1
+
+/-- QuTiP accepts `new_order` (no "invalid order" error) and the result carries the register's `dims`. -/
+theorem flat_dims (dims targets : List Nat) (hpos : ∀ d ∈ dims, 0 < d) (hn : targets.Nodup)
+    (hr : ∀ t ∈ targets, t < dims.length) : EmbedFlat.flatDims dims targets = .ok dims :=
+  EmbedFlat.flatDims_ok dims targets hpos hn hr
+
+example : EmbedFlat.flatDims [2, 3, 4] [2, 0] = .ok [2, 3, 4] := by decide
+
+/-- **Flat-index model = digit-tuple model** under the mixed-radix bijection (`undigits_digits`,
+`digits_undigits`): for every dimension vector with positive entries, every injective in-range target
+list and all flat indices below the total dimension. -/
+theorem flat_eq_digits (dims targets : List Nat) (hpos : ∀ d ∈ dims, 0 < d) (hn : targets.Nodup)
+    (hr : ∀ t ∈ targets, t < dims.length) (X Y : Nat) (hX : X < prodL dims) (hY : Y < prodL dims) :
+    EmbedFlat.flatEntry dims targets X Y =
+      (expandEntry dims.length targets (digits dims X) (digits dims Y)).map
+        (fun p => (undigits (targets.map (fun t => dims.getD t 0)) p.1,
+                   undigits (targets.map (fun t => dims.getD t 0)) p.2)) :=
+  EmbedFlat.flatEntry_eq_digits dims targets hpos hn hr X Y hX hY
+
+/-- **Main theorem on the stored matrices.** The entry at flat row `X`, flat column `Y` of what
+`expand_operator` returns is the operator's entry at the flat indices formed by the target digits of `X`
+and `Y` (in the listed order) if all other digits agree, and 0 otherwise — for every dimension vector,
+every injective in-range target list, every operator (the entry is symbolic) and every coefficient ring. -/
+theorem flat_eq_spec (dims targets : List Nat) (hpos : ∀ d ∈ dims, 0 < d) (hn : targets.Nodup)
+    (hr : ∀ t ∈ targets, t < dims.length) (X Y : Nat) (hX : X < prodL dims) (hY : Y < prodL dims) :
+    EmbedFlat.flatEntry dims targets X Y = EmbedFlat.specFlat dims targets X Y := by
+  rw [flat_eq_digits dims targets hpos hn hr X Y hX hY, expand_eq_spec dims.length targets _ _ hn hr,
+    EmbedFlat.specEntry_digits dims targets hr X Y]
+
+-- non-vacuity: register (2,3,2), a two-subsystem operator on targets [2,0]; row 7 = (1,0,1)
+example : (∀ d ∈ [2, 3, 2], 0 < d) ∧ [2, 0].Nodup ∧ (∀ t ∈ [2, 0], t < [2, 3, 2].length) ∧
+    7 < prodL [2, 3, 2] ∧ EmbedFlat.flatEntry [2, 3, 2] [2, 0] 7 6 = some (3, 1)
+    ∧ EmbedFlat.flatEntry [2, 3, 2] [2, 0] 7 2 = none := by decide
+
+/-- the stored matrix over any coefficient type: `evalEntry U e` reads the operator's matrix `U` -/
+def evalEntry {R : Type} [Zero R] (U : Nat → Nat → R) : EmbedFlat.Entry → R
+  | none => 0
+  | some (a, b) => U a b
+
+/-- The same as a `Fin (∏ dims)`-indexed matrix over an arbitrary coefficient type: element `(X, Y)` is
+`U[a, b]` with `a`, `b` below the operator's dimension `∏ targets' dims`, or `0`. -/
+theorem flat_matrix_eq_spec {R : Type} [Zero R] (U : Nat → Nat → R) (dims targets : List Nat)
+    (hpos : ∀ d ∈ dims, 0 < d) (hn : targets.Nodup) (hr : ∀ t ∈ targets, t < dims.length)
+    (X Y : Fin (prodL dims)) :
+    evalEntry U (EmbedFlat.flatEntry dims targets X Y) =
+      if ∀ i, i < dims.length → i ∉ targets → EmbedFlat.digitAt dims X i = EmbedFlat.digitAt dims Y i
+      then U (undigits (targets.map (fun t => dims.getD t 0)) (targets.map (EmbedFlat.digitAt dims X)))
+             (undigits (targets.map (fun t => dims.getD t 0)) (targets.map (EmbedFlat.digitAt dims Y)))
+      else 0 := by
+  rw [flat_eq_spec dims targets hpos hn hr X Y X.2 Y.2]
+  unfold EmbedFlat.specFlat
+  have hiff := EmbedFlat.specFlat_cond_iff dims targets X Y
+  by_cases hc : ∀ i, i < dims.length → i ∉ targets → EmbedFlat.digitAt dims X i = EmbedFlat.digitAt dims Y i
+  · simp only [if_pos hc, if_pos (hiff.mpr hc)]; rfl
+  · simp only [if_neg hc, if_neg (fun h => hc (hiff.mp h))]; rfl
+
+/-- the operator's indices that occur are below the operator's dimension -/
+theorem flat_entry_in_range (dims targets : List Nat) (hpos : ∀ d ∈ dims, 0 < d) (hn : targets.Nodup)
+    (hr : ∀ t ∈ targets, t < dims.length) (X Y : Nat) (hX : X < prodL dims) (hY : Y < prodL dims)
+    (a b : Nat) (h : EmbedFlat.flatEntry dims targets X Y = some (a, b)) :
+    a < prodL (targets.map (fun t => dims.getD t 0)) ∧ b < prodL (targets.map (fun t => dims.getD t 0)) := by
+  rw [flat_eq_spec dims targets hpos hn hr X Y hX hY] at h
+  unfold EmbedFlat.specFlat at h
+  have hv := EmbedFlat.undigits_targets_lt dims targets hpos hr
+  split at h
+  · simp only [Option.some.injEq, Prod.mk.injEq] at h
+    rw [← h.1, ← h.2]; exact ⟨hv X, hv Y⟩
+  · exact absurd h (by simp)
+
+example : EmbedFlat.flatEntry [2, 3, 2] [2, 0] 7 6 = some (3, 1) ∧ 3 < prodL ([2, 0].map (fun t => [2, 3, 2].getD t 0)) := by
+  decide
 
 /-! ### Rejections -/
 
@@ -163,6 +264,152 @@ theorem validate_ok_iff (dims : List Nat) (targets : List Int) (opdims : List Na
 -- non-vacuity: a well-formed request is accepted, a duplicate and a negative target are not
 example : validate [2, 3, 2] [2, 0] [2, 2] = .ok [2, 0] ∧ validate [2, 3, 2] [0, 0] [2, 2] = .error .index
     ∧ validate [2, 3, 2] [-1] [2] = .error .index ∧ validate [2] [0, 0] [2, 2] = .error .permute := by decide
+
+
+/-! ### The other argument forms of `expand_operator` (`Model/EmbedArgs.lean`)
+
+`N=` / `dims=None`, `targets` as `None` / integer / list, non-square operators, `cyclic_permutation`. -/
+
+open QipVerif.EmbedArgs in
+/-- The standard call `expand_operator(oper, dims=dims, targets=[…])` with a square operator is exactly
+`validate`: same verdicts, and on acceptance one operator on the register `dims`. -/
+theorem args_plain (dims : List Nat) (ts : List Int) (od : List Nat) :
+    expandArgs ⟨none, some dims, .list ts, od, od, false⟩ =
+      match validate dims ts od with
+      | .ok nn => .ok [(dims, nn)]
+      | .error e => .error (.val e) := by
+  simp only [expandArgs, resolveSize, resolveTargets, expandOne, checkArgs, buildChecks, validate,
+    restPos_any_false, List.take_length, Bool.false_eq_true, ↓reduceIte, ne_eq, not_true_eq_false]
+  by_cases h1 : ts.length = od.length
+  · by_cases h2 : (ts.all fun t => decide (t < (dims.length : Int))) = true
+    · cases h4 : pyGetAll dims ts with
+      | none => simp [h1, h2]
+      | some td =>
+        by_cases h5 : td = od
+        · by_cases h6 : (restPos dims.length (nonneg ts)).length > dims.length - od.length
+          · simp [h1, h2, h5, h6]
+          · by_cases h8 : (restPos dims.length (nonneg ts)).length + od.length = dims.length
+            · simp [h1, h2, h5, h6, h8]
+            · simp [h1, h2, h5, h6, h8]
+        · simp [h1, h2, h5]
+    · simp [h1, h2]
+  · simp [h1]
+
+open QipVerif.EmbedArgs in
+example : expandArgs ⟨none, some [2, 3, 2], .list [2, 0], [2, 2], [2, 2], false⟩ = .ok [([2, 3, 2], [2, 0])]
+    ∧ expandArgs ⟨none, some [2, 3, 2], .list [1], [2], [2], false⟩ = .error (.val .dims)
+    ∧ expandArgs ⟨none, some [2, 3, 2], .list [1], [3], [2], false⟩ = .error .square
+    ∧ expandArgs ⟨none, none, .list [1], [3], [3], false⟩ = .error .nosize := by decide
+
+open QipVerif.EmbedArgs in
+/-- `targets=t` (an integer) is `targets=[t]`; `targets=None` is `range(len(oper.dims[0]))`;
+`N=n` without `dims` is `dims=[2]*n`. -/
+theorem args_forms (N : Option Nat) (dims : Option (List Nat)) (t : Int) (n : Nat) (ta : TArg)
+    (opL opR : List Nat) (c : Bool) :
+    expandArgs ⟨N, dims, .int t, opL, opR, c⟩ = expandArgs ⟨N, dims, .list [t], opL, opR, c⟩ ∧
+    expandArgs ⟨N, dims, .none, opL, opR, c⟩
+      = expandArgs ⟨N, dims, .list ((List.range opL.length).map Int.ofNat), opL, opR, c⟩ ∧
+    expandArgs ⟨some n, none, ta, opL, opR, c⟩ = expandArgs ⟨none, some (List.replicate n 2), ta, opL, opR, c⟩ := by
+  refine ⟨rfl, rfl, ?_⟩
+  simp [expandArgs, resolveSize, resolveTargets]
+
+open QipVerif.EmbedArgs in
+example : expandArgs ⟨some 3, none, .int 1, [2], [2], false⟩ = .ok [([2, 2, 2], [1])]
+    ∧ expandArgs ⟨some 3, none, .none, [2, 2], [2, 2], false⟩ = .ok [([2, 2, 2], [0, 1])] := by decide
+
+open QipVerif.EmbedArgs in
+/-- **Every accepted single call is a well-formed placement**: whatever combination of `N`, `dims`,
+`targets` was passed, if a value is returned then the operator is square, `N ≤ len(dims)`, and the request
+is one that `validate` accepts on the register `dims[:N]` (hence, by `validate_ok_iff`, non-negative,
+in-range, pairwise distinct targets with matching dimensions) — the case to which `flat_eq_spec` applies.
+With `N < len(dims)` the code silently ignores the subsystems from `N` on. -/
+theorem args_one_sound (N : Nat) (dims : List Nat) (ts : List Int) (opL opR reg nn : List Nat)
+    (h : expandOne N dims ts opL opR = .ok (reg, nn)) :
+    reg = dims.take N ∧ N ≤ dims.length ∧ opL = opR ∧ validate reg ts opL = .ok nn := by
+  obtain ⟨h1, h2, h3, h4, h5, h6, h7⟩ := expandOne_ok N dims ts opL opR reg nn h
+  refine ⟨h1, h2, h3, (validate_ok_iff reg ts opL nn).mpr ⟨h4, h5, ?_, h7⟩⟩
+  have : reg.length = N := by rw [h1, List.length_take]; omega
+  rw [this]; exact h6
+
+open QipVerif.EmbedArgs in
+example : expandOne 2 [2, 3, 2] [1] [3] [3] = .ok ([2, 3], [1])
+    ∧ expandOne 4 [2, 3, 2] [1] [3] [3] = .error (.val .index) := by decide
+
+open QipVerif.EmbedArgs in
+/-- the non-cyclic call returns one operator, and it is a well-formed placement -/
+theorem args_sound (a : Args) (rs : List (List Nat × List Nat)) (hc : a.cyclic = false)
+    (h : expandArgs a = .ok rs) :
+    ∃ N dims reg nn, resolveSize a = .ok (N, dims) ∧ rs = [(reg, nn)] ∧ reg = dims.take N ∧
+      N ≤ dims.length ∧ a.opL = a.opR ∧ validate reg (resolveTargets a) a.opL = .ok nn := by
+  unfold expandArgs at h
+  cases hs : resolveSize a with
+  | error e => simp [hs] at h
+  | ok p =>
+    obtain ⟨N, dims⟩ := p
+    simp only [hs, hc, Bool.false_eq_true, ↓reduceIte] at h
+    cases h1 : expandOne N dims (resolveTargets a) a.opL a.opR with
+    | error e => simp [h1] at h
+    | ok r =>
+      obtain ⟨reg, nn⟩ := r
+      simp only [h1, Except.ok.injEq] at h
+      obtain ⟨e1, e2, e3, e4⟩ := args_one_sound N dims _ _ _ reg nn h1
+      exact ⟨N, dims, reg, nn, rfl, h.symm, e1, e2, e3, e4⟩
+
+open QipVerif.EmbedArgs in
+/-- `cyclic_permutation=True`: `N` operators, the `j`-th is the single call on the targets shifted by `j`
+modulo `N` (so negative targets are accepted in this mode, as `np.mod` makes them non-negative). -/
+theorem args_cyclic (a : Args) (rs : List (List Nat × List Nat)) (hc : a.cyclic = true)
+    (h : expandArgs a = .ok rs) :
+    ∃ N dims, resolveSize a = .ok (N, dims) ∧ rs.length = N ∧ N ≤ dims.length ∧ a.opL = a.opR ∧
+      ∀ j (hj : j < rs.length), rs[j].1 = dims.take N ∧
+        validate (dims.take N) ((resolveTargets a).map (fun t => (t + (j : Int)) % (N : Int))) a.opL = .ok rs[j].2 := by
+  unfold expandArgs at h
+  cases hs : resolveSize a with
+  | error e => simp [hs] at h
+  | ok p =>
+    obtain ⟨N, dims⟩ := p
+    simp only [hs, hc, ↓reduceIte] at h
+    cases h0 : checkArgs N dims (resolveTargets a) a.opL a.opR with
+    | error e => simp [h0] at h
+    | ok u =>
+      simp only [h0] at h
+      obtain ⟨hl, hj⟩ := cyclicLoop_ok N dims _ _ _ _ rs h
+      have hsq : a.opL = a.opR := by
+        unfold checkArgs at h0
+        by_cases h3 : a.opL = a.opR
+        · exact h3
+        · exfalso
+          by_cases h1 : (resolveTargets a).length ≠ a.opL.length
+          · simp [h1] at h0
+          by_cases h2 : ¬ ((resolveTargets a).all fun t => decide (t < (N : Int))) = true
+          · simp [h1, h2] at h0
+          simp only [h1, h3, ne_eq, not_false_eq_true, ↓reduceIte] at h0
+          split at h0 <;> simp at h0
+      have hlen : rs.length = N := by rw [hl, List.length_range]
+      have hN : N ≤ dims.length := by
+        by_cases hz : N = 0
+        · omega
+        · have h0' : 0 < rs.length := by omega
+          have := hj 0 (by rw [List.length_range]; omega) h0'
+          cases hr : rs[0] with
+          | mk reg nn =>
+            rw [hr] at this
+            exact (args_one_sound N dims _ _ _ reg nn this).2.1
+      refine ⟨N, dims, rfl, hlen, hN, hsq, ?_⟩
+      intro j hj'
+      have := hj j (by rw [List.length_range]; omega) hj'
+      rw [List.getElem_range] at this
+      cases hr : rs[j] with
+      | mk reg nn =>
+        rw [hr] at this
+        obtain ⟨e1, _, _, e4⟩ := args_one_sound N dims _ _ _ reg nn this
+        exact ⟨e1, e1 ▸ e4⟩
+
+open QipVerif.EmbedArgs in
+example : expandArgs ⟨none, some [2, 2, 2], .list [-1], [2], [2], true⟩
+      = .ok [([2, 2, 2], [2]), ([2, 2, 2], [0]), ([2, 2, 2], [1])]
+    ∧ expandArgs ⟨none, some [2, 3, 2], .list [0], [2], [2], true⟩ = .error (.val .dims)
+    ∧ expandArgs ⟨none, some [2, 2, 2], .list [-1], [2], [2], false⟩ = .error (.val .index) := by decide
 
 /-! ### The same placement as an operator on `(ℂ²)^{⊗N}` (used by C01, C03, C05, C07) -/
 
